@@ -86,7 +86,8 @@ def structural_mutation(rng, wj):
     if strs:
         c, k = rng.choice(strs)
         c[k] = rng.choice(["foo", "Uniform", "replace all", "linear ", "none"])
-        return "option '%s' set to unsupported value '%s'" % (k, c[k]), True, w
+        # rejection is demanded through the schema verdict (the published schema enumerates the option values)
+        return "option '%s' set to unsupported value '%s'" % (k, c[k]), None, w
     return "unchanged", False, w
 
 
@@ -104,11 +105,15 @@ def length_mismatch(rng, wj):
                     for k in ("centerline temperatures", "gaussian sigmas", "depths"):
                         if len(m.get(k, [])) >= 2:
                             cands.append((m, k, "gaussian plume temperature list '%s'" % k))
+        line = f["model"] in ("subducting plate", "fault")
+        allsegs = (f.get("segments", []) + [sg for sc in f.get("sections", []) for sg in sc["segments"]]) if line else []
         for kind in ("composition models",):
+            if line and all(kind in sg for sg in allsegs):
+                continue        # feature-level models that no segment inherits are never instantiated
             for m in f.get(kind, []):
                 if m.get("model") == "uniform" and "fractions" in m and len(m["fractions"]) >= 1:
                     cands.append((m, "fractions", "uniform composition 'fractions' vs 'compositions'"))
-        for m in f.get("grains models", []):
+        for m in ([] if (line and all("grains models" in sg for sg in allsegs)) else f.get("grains models", [])):
             for k in ("rotation matrices", "grain sizes"):
                 if k in m and len(m[k]) >= 1 and m.get("model") == "uniform":
                     cands.append((m, k, "uniform grains '%s' vs 'compositions'" % k))
